@@ -138,3 +138,39 @@ Lemma banner_length_formula proto software comment :
 Proof.
   rewrite !zlen_app. destruct comment as [c|]; rewrite ?zlen_cons, ?zlen_nil; change (zlen banner_prefix) with 4; lia.
 Qed.
+
+(* ECDSA host keys (RFC 5656 3.1 / SEC 1 2.3.3): the point always has 1 + 2 * size octets, whatever the coordinates, and
+   both coordinates are recovered from their fixed positions *)
+From CP Require Import Lemmas.UnitLemmas.
+Lemma ec_point_fixed_width size x y :
+  0 <= x < 256 ^ Z.of_nat size -> 0 <= y < 256 ^ Z.of_nat size ->
+  zlen (enc_ec_point size x y) = 1 + 2 * Z.of_nat size /\
+  (exists r, enc_ec_point size x y = z2b 4 :: r /\ be_val (firstn size r) = x /\ be_val (skipn size r) = y).
+Proof.
+  intros Hx Hy. unfold enc_ec_point. split.
+  - rewrite zlen_cons, zlen_app. unfold zlen. rewrite !be_enc_length. lia.
+  - eexists. split; [reflexivity|].
+    assert (E1 : firstn size (be_enc size x ++ be_enc size y) = be_enc size x).
+    { rewrite <- (be_enc_length size x) at 1. apply firstn_app_exact. }
+    assert (E2 : skipn size (be_enc size x ++ be_enc size y) = be_enc size y).
+    { rewrite <- (be_enc_length size x) at 1. apply skipn_app_exact. }
+    rewrite E1, E2, !be_val_be_enc by assumption. split; reflexivity.
+Qed.
+
+Lemma ecdsa_blob_decodes ident size x y s :
+  zlen ident < 4294967000 -> Z.of_nat size < 1000000 ->
+  exists r1 r2,
+    dec_string (enc_ecdsa_blob ident size x y ++ s) = Some (name_ecdsa_prefix ++ ident, r1) /\
+    dec_string r1 = Some (ident, r2) /\
+    dec_string r2 = Some (enc_ec_point size x y, s).
+Proof.
+  intros Hi Hs. unfold enc_ecdsa_blob. rewrite <- !app_assoc.
+  assert (Lp : zlen name_ecdsa_prefix = 11) by reflexivity.
+  assert (Lq : zlen (enc_ec_point size x y) = 1 + 2 * Z.of_nat size).
+  { unfold enc_ec_point. rewrite zlen_cons, zlen_app. unfold zlen. rewrite !be_enc_length. lia. }
+  pose proof (zlen_nonneg ident).
+  eexists. eexists. split; [|split].
+  - apply dec_enc_string. rewrite zlen_app. lia.
+  - apply dec_enc_string. lia.
+  - apply dec_enc_string. lia.
+Qed.
